@@ -5,11 +5,17 @@ import concurrent.futures as cf
 import hashlib
 import json
 import os
+import re
 import sys
 from pathlib import Path
 
 import tlc
-from common import EVIDENCE, REPLAYS, SPEC, VERIF, WORKERS, Timer, Work, seed, write_ndjson
+from common import EVIDENCE, REPLAYS, REPO, SPEC, VERIF, WORKERS, Timer, Work, seed, write_ndjson
+
+
+_REJECT = re.compile(r'<<\s*"REJECT",\s*"([^"]*)",\s*"([^"]*)",\s*"([^"]*)"\s*>>', re.S)
+_SKIP = re.compile(r'<<\s*"SKIP",\s*"([^"]*)",\s*"([^"]*)",\s*"([^"]*)"\s*>>', re.S)
+_TOTAL = re.compile(r'<<\s*"TOTAL",\s*(\d+),\s*(\d+)\s*>>', re.S)
 
 
 class MachineryError(RuntimeError):
@@ -144,21 +150,21 @@ class Ctx:
         for k, r in enumerate(results):
             self._account(r, f"trace validation shard {k} ({len(parts[k])} records)")
             ok = bad = None
-            for ln in r.prints:
-                if ln.startswith('<<"REJECT"'):
-                    body = ln.strip()[2:-2]
-                    fields = [x.strip().strip('"') for x in body.split(",")]
-                    rej.append((fields[1], fields[2], fields[3] if len(fields) > 3 else "?"))
-                elif ln.startswith('<<"SKIP"'):
-                    body = ln.strip()[2:-2]
-                    fields = [x.strip().strip('"') for x in body.split(",")]
-                    self.count("out_of_domain_records")
-                    self.extra.setdefault("out_of_domain_reasons", {})
-                    why = fields[3] if len(fields) > 3 else "?"
-                    self.extra["out_of_domain_reasons"][why] = self.extra["out_of_domain_reasons"].get(why, 0) + 1
-                elif ln.startswith('<<"TOTAL"'):
-                    body = ln.strip()[2:-2].split(",")
-                    ok, bad = int(body[1]), int(body[2])
+            # TLC wraps long tuples over several lines: parse the whole output, not line by line
+            rejected_ids = set()
+            for m_ in _REJECT.finditer(r.out):
+                rej.append((m_.group(1), m_.group(2), m_.group(3)))
+                rejected_ids.add(m_.group(1))
+            for m_ in _SKIP.finditer(r.out):
+                self.count("out_of_domain_records")
+                d = self.extra.setdefault("out_of_domain_reasons", {})
+                d[m_.group(3)] = d.get(m_.group(3), 0) + 1
+            m_ = _TOTAL.search(r.out)
+            if m_:
+                ok, bad = int(m_.group(1)), int(m_.group(2))
+            if bad is not None and bad != len(rejected_ids):
+                raise MachineryError(
+                    f"trace validator rejected {bad} records but {len(rejected_ids)} REJECT lines were parsed\n" + r.out[-3000:])
             if ok is None or ok + bad != len(parts[k]):
                 raise MachineryError(
                     f"trace validator did not give a total verdict for shard {k}: {ok}+{bad} of "
@@ -221,7 +227,8 @@ class Ctx:
             "wall_s": self.timer.s(),
             "violations": len(self.violations),
         }
-        if not self.replay_mode:
+        if not self.replay_mode and str(REPO) == "/repo":
+            # evidence is only ever written for /repo itself (self-tests point VERIF_REPO elsewhere)
             EVIDENCE.mkdir(exist_ok=True)
             (EVIDENCE / f"{self.prop}.json").write_text(json.dumps(ev, indent=1, default=str) + "\n")
         for m in self.known_hits:
